@@ -19,6 +19,7 @@ mod c14;
 mod c15;
 mod c03;
 mod c16;
+mod c19;
 mod c20;
 mod gen;
 mod dicts;
@@ -50,6 +51,8 @@ fn main() {
         "c03-record" => c03::record(rest),
         "c03-replay" => c03::replay(rest),
         "c03-single" => c03::single(rest),
+        "c19-world" => c19::world(rest),
+        "c19-lib" => c19::lib(rest),
         "c16-run" => c16::run(rest),
         "c07-replay" => c07::replay(rest),
         "c07-record" => c07::record(rest),
